@@ -94,6 +94,9 @@ pub fn evaluate_expression(expr: &str, facts: &Facts) -> Result<Value> {
 fn find_operator(expr: &str, operators: &[char]) -> Option<usize> {
     let mut paren_depth = 0;
     let mut last_pos = None;
+    // Previous non-whitespace character: a sign at the start or directly after another
+    // operator belongs to a literal ("-3", "x * -1") and is not a binary operator
+    let mut prev: Option<char> = None;
 
     // `char_indices` yields byte offsets: the callers slice `expr` at the returned position,
     // and a character count is not a valid slice index once a multi-byte character precedes it.
@@ -102,9 +105,16 @@ fn find_operator(expr: &str, operators: &[char]) -> Option<usize> {
             '(' => paren_depth += 1,
             ')' => paren_depth -= 1,
             _ if paren_depth == 0 && operators.contains(&ch) => {
-                last_pos = Some(i);
+                let is_sign = (ch == '+' || ch == '-')
+                    && matches!(prev, None | Some('+' | '-' | '*' | '/' | '%'));
+                if !is_sign {
+                    last_pos = Some(i);
+                }
             }
             _ => {}
+        }
+        if !ch.is_whitespace() {
+            prev = Some(ch);
         }
     }
 
